@@ -34,7 +34,7 @@ import (
 
 func init() {
 	register(&Check{ID: "C18", Level: "fault_enumeration",
-		Rule: "(a) upstream kinds {udp, tcp, tcp+pipeline, tls, tls+pipeline, http, https, h3, quic} x close race points {idle connection, in-flight exchanges, pending dial, never used} each in its own child process with a socket census; (b) router start/close with all listener kinds and a failing listener (address in use, unreadable certificate, unknown protocol) at every position of 1-8 servers; (c) the binary under SIGTERM and with bad configurations; " +
+		Rule: "(a) upstream kinds {udp, tcp, tcp+pipeline, tls, tls+pipeline, http, https, h3, quic} x close race points {idle connection, in-flight exchanges (answered late and never answered), pending dial, never used; pipelined kinds: connection with all 65536 wire ids used and queries still in flight} each in its own child process with a socket census; (b) router start/close with all listener kinds and a failing listener (address in use, unreadable certificate, unknown protocol) at every position of 1-8 servers, directly after every listener kind, repeated in-process; close after the parent context was cancelled; (c) the binary under SIGTERM and with bad configurations; " +
 			"one evaluation = one cell (child run); distinct non-trivial = distinct (part, kind, race point / failure kind, position) cells that completed",
 		Run: runC18})
 	children["c18up"] = c18UpstreamChild
